@@ -206,7 +206,9 @@ func corrupt(r *rng.R, set map[string]*val.V) (map[string]*val.V, string) {
 		fallthrough
 	default:
 		// extents permuted (same rank): caught by a fixed extent or deep inside an operator
-		if len(v.Shape) >= 2 {
+		// (not for large tensors: where nothing validates the shape, [16500,2,1] broadcast against [16500] is a
+		// legitimate 2 GB result, and sixteen workers doing that exhaust the machine)
+		if len(v.Shape) >= 2 && len(v.Bits) <= 4096 {
 			v.Shape[0], v.Shape[len(v.Shape)-1] = v.Shape[len(v.Shape)-1], v.Shape[0]
 			return o, "extents swapped on " + name
 		}
